@@ -128,3 +128,22 @@ Definition insert_example : Prop :=
 
 Lemma insert_example_holds : insert_example.
 Proof. vm_compute. repeat split; reflexivity. Qed.
+
+(* ---- a row excluded by a falsy OBJECT is evaluated all the same (finding falsy-include_if-row-evaluated) ----
+   The faithful model: include_if = {@ none @} makes to_include answer "not included" (RowParser: bool(None)), but the
+   pre-check of SheetParser.parse_next_row compares str(value) with "false", "None" is not "false", the row is parsed with
+   templating and its main cell — an unknown name — stops the run. *)
+Definition falsy_include_if_witness : Prop :=
+  let r := mk_srow KPlain (CNative ENone) (CTmpl [NText [109; 32]; NOut (EVar [110; 109; 97; 101])]) in
+  let cx := [([110; 97; 109; 101], VStr [65])] in
+  parse_as_string_m Strict Strict (Some cx) (r_inc r) = Ok (PObj VNone)
+  /\ to_include Strict (PObj VNone) = Ok false                       (* the row is NOT included ... *)
+  /\ snd (inst_row_incl Strict Strict (Some cx) r []) = Err EUndefined   (* ... and evaluated nevertheless *)
+  /\ (* the same row under the literal FALSE is not evaluated *)
+  (exists mv, snd (inst_row_incl Strict Strict (Some cx) (mk_srow KPlain (lit s_false) (r_main r)) []) = Ok (false, mv)).
+
+Lemma falsy_include_if_witness_holds : falsy_include_if_witness.
+Proof.
+  unfold falsy_include_if_witness. split; [vm_compute; reflexivity|]. split; [vm_compute; reflexivity|].
+  split; [vm_compute; reflexivity|]. eexists. vm_compute. reflexivity.
+Qed.
